@@ -23,8 +23,13 @@
         keeps a VIRTUAL link for such a step: a placeholder, not a link of the graph)
         and / or without the S line of segment C (a virtual segment).  The
         containment option selects the paths (PathCat) instead of containments.
+     6  as 5 with the names A, A*3, A*2 and never an S line for the third segment:
+        a segment that is only mentioned (placeholder) is named like an automatic
+        copy name of the first one ("fresh" = not in use by anything, placeholders
+        included)
    Containment options: none; A contains B; C contains B (reversed) and A
-   contains C; two parallel containments of B in A.
+   contains C; two parallel containments of B in A, and A contains itself
+   (reversed; written in GFA1 only).
    The argument catalogue (printed once as ARGS) is
      segment x {-1, 0, 1} x off x automatic names
      segment x {2, 3} x {off, auto, equal, L, R} x {automatic, given names}.   *)
@@ -35,14 +40,15 @@ CONSTANTS NSeg, MaxLinks, LawLinks
 VARIABLES prof, sel, cont
 vars == <<prof, sel, cont>>
 
-Profiles == {1, 2, 3, 4, 5}
-ContOptionsOf(p) == IF p = 4 THEN {0} ELSE IF p = 5 THEN 0..5 ELSE 0..3
-MaxLinksOf(p) == IF p = 4 THEN MaxLinks + 1 ELSE IF p = 5 THEN 2 ELSE MaxLinks
+Profiles == {1, 2, 3, 4, 5, 6}
+ContOptionsOf(p) == IF p = 4 THEN {0} ELSE IF p = 5 THEN 0..5 ELSE IF p = 6 THEN {4, 5} ELSE 0..3
+MaxLinksOf(p) == IF p = 4 THEN MaxLinks + 1 ELSE IF p \in {5, 6} THEN 2 ELSE MaxLinks
 LetterNames == <<"A", "B", "C", "D">>
 StarNames   == <<"A*2", "B", "A*3", "D">>
+CandNames   == <<"A", "A*3", "A*2", "D">>
 SeqCat == << <<"A", "A", "C", "G", "T">>, <<"C", "C", "G">>, <<"G", "T", "T", "A">>, <<"T", "C", "A">> >>
 
-NameOf(p, i) == IF p = 2 THEN StarNames[i] ELSE LetterNames[i]
+NameOf(p, i) == IF p = 2 THEN StarNames[i] ELSE IF p = 6 THEN CandNames[i] ELSE LetterNames[i]
 SegCnt(p, i) == IF p = 2 THEN (CASE i = 1 -> <<7, -1, -1>> [] i = 2 -> <<-1, -1, 1>> [] OTHER -> <<-1, 8, -1>>)
                 ELSE (CASE i = 1 -> <<10, -1, 7>> [] i = 2 -> <<-1, 9, -1>> [] i = 3 -> <<-1, -1, -1>> [] OTHER -> <<3, -1, -1>>)
 SegTags(p, i) == IF i = 1 THEN <<"xx:Z:t">> ELSE <<>>
@@ -91,22 +97,27 @@ ContCat(p) ==
      <<[n1 |-> N(3), o1 |-> "+", n2 |-> N(2), o2 |-> "-", pos |-> 0, ov |-> -1, cnt |-> <<-1, -1, -1>>],
        [n1 |-> N(1), o1 |-> "-", n2 |-> N(3), o2 |-> "+", pos |-> 1, ov |-> 4, cnt |-> <<9, -1, -1>>]>>,
      <<[n1 |-> N(1), o1 |-> "+", n2 |-> N(2), o2 |-> "+", pos |-> 1, ov |-> 3, cnt |-> <<-1, 4, -1>>],
-       [n1 |-> N(1), o1 |-> "+", n2 |-> N(2), o2 |-> "-", pos |-> 2, ov |-> -1, cnt |-> <<5, -1, -1>>]>> >>
-ContRecs(p, c) == LET r == IF p = 5 THEN <<>> ELSE ContCat(p)[c + 1] IN
+       [n1 |-> N(1), o1 |-> "+", n2 |-> N(2), o2 |-> "-", pos |-> 2, ov |-> -1, cnt |-> <<5, -1, -1>>],
+       [n1 |-> N(1), o1 |-> "+", n2 |-> N(1), o2 |-> "-", pos |-> 0, ov |-> 2, cnt |-> <<-1, -1, 7>>]>> >>
+ContRecs(p, c) == LET r == IF p \in {5, 6} THEN <<>> ELSE ContCat(p)[c + 1] IN
    [k \in DOMAIN r |-> [n1 |-> r[k].n1, o1 |-> r[k].o1, n2 |-> r[k].n2, o2 |-> r[k].o2,
                         pos |-> r[k].pos, ov |-> r[k].ov, cnt |-> r[k].cnt,
-                        eid |-> IF p = 3 THEN "c" \o ToString(k) ELSE "*"]]
+                        eid |-> IF p = 3 THEN "c" \o ToString(k) ELSE "*",
+                        v1only |-> IF r[k].n1 = r[k].n2 THEN 1 ELSE 0]]
 
 \* profile 5: the P lines (name, oriented segments, overlaps) and whether segment C has an S line
-PathCat == << [paths |-> << <<"p1", <<"A+", "B+", "C+">>, <<"*">> >> >>, sc |-> 1],
-              [paths |-> << <<"p1", <<"A+", "B+", "C+">>, <<"1M", "1M">> >> >>, sc |-> 1],
-              [paths |-> << <<"p1", <<"B-", "A-">>, <<"1M">> >>, <<"p2", <<"A+", "C-">>, <<"*">> >> >>, sc |-> 1],
-              [paths |-> << <<"p1", <<"A+", "A+">>, <<"*">> >>, <<"p2", <<"C+", "A+", "B-">>, <<"1M", "1M">> >> >>, sc |-> 1],
-              [paths |-> <<>>, sc |-> 0],
-              [paths |-> << <<"p1", <<"A+", "B+", "C+">>, <<"*">> >> >>, sc |-> 0] >>
-PathsOf(p, c) == IF p = 5 THEN PathCat[c + 1].paths ELSE <<>>
+PathCat(p) ==
+  LET A == NameOf(p, 1)  B == NameOf(p, 2)  C == NameOf(p, 3) IN
+  << [paths |-> << <<"p1", <<A \o "+", B \o "+", C \o "+">>, <<"*">> >> >>, sc |-> 1],
+     [paths |-> << <<"p1", <<A \o "+", B \o "+", C \o "+">>, <<"1M", "1M">> >> >>, sc |-> 1],
+     [paths |-> << <<"p1", <<B \o "-", A \o "-">>, <<"1M">> >>, <<"p2", <<A \o "+", C \o "-">>, <<"*">> >> >>, sc |-> 1],
+     [paths |-> << <<"p1", <<A \o "+", A \o "+">>, <<"*">> >>,
+                   <<"p2", <<C \o "+", A \o "+", B \o "-">>, <<"1M", "1M">> >> >>, sc |-> 1],
+     [paths |-> <<>>, sc |-> 0],
+     [paths |-> << <<"p1", <<A \o "+", B \o "+", C \o "+">>, <<"*">> >> >>, sc |-> 0] >>
+PathsOf(p, c) == IF p \in {5, 6} THEN PathCat(p)[c + 1].paths ELSE <<>>
 \* the segments with an S line
-SegIdxOf(p, c) == IF p = 5 /\ PathCat[c + 1].sc = 0 THEN 1..2 ELSE 1..NSeg
+SegIdxOf(p, c) == IF p \in {5, 6} /\ PathCat(p)[c + 1].sc = 0 THEN 1..2 ELSE 1..NSeg
 
 Init == prof \in Profiles /\ sel = <<>> /\ cont \in ContOptionsOf(prof)
 Next == /\ Len(sel) < MaxLinksOf(prof)
@@ -129,7 +140,7 @@ Emit == PrintT(<<"CASE", prof,
    [k \in DOMAIN sel |-> LET r == LinkRec(prof, sel, k) IN
         <<r.e1[1], r.e1[2], r.e2[1], r.e2[2], r.ov, CntTags(r.cnt) \o r.otags, r.eid, r.twin>>],
    [k \in DOMAIN ContRecs(prof, cont) |-> LET r == ContRecs(prof, cont)[k] IN
-        <<r.n1, r.o1, r.n2, r.o2, r.pos, r.ov, CntTags(r.cnt), r.eid>>],
+        <<r.n1, r.o1, r.n2, r.o2, r.pos, r.ov, CntTags(r.cnt), r.eid, r.v1only>>],
    PathsOf(prof, cont), SetToSeq(SegIdxOf(prof, cont)), cont>>)
 
 Policies == {"off", "auto", "equal", "L", "R"}
@@ -196,6 +207,7 @@ LawArgs == {a \in ArgSet : a[1] = 1}
 \*  is covered; placeholders: the real lines do not depend on the paths)
 LawState == /\ Len(sel) <= (IF prof = 4 THEN LawLinks + 1 ELSE LawLinks)
             /\ prof = 5 => cont \in {0, 4}
+            /\ prof = 6 => cont = 4
 \* the post-condition accepts the reference outcome, for every end it may distribute
 Satisfiable ==
   LawState =>
@@ -237,6 +249,11 @@ Discriminating ==
                                 inv == [l EXCEPT !.refs = [t \in DOMAIN l.refs |-> [id |-> l.refs[t].id, o |-> Inv(l.refs[t].o)]]] IN
           (\A i \in PreEdges(pre, s) : ~CopyOf(inv, pre[i], N, s)) =>
               {"C15.edges", "C15.distribution"} \cap MultiplyFails(pre, Append(post, inv), args) # {}
+    \* the copy of an edge of the segment with itself runs from the copy to the original
+    /\ \A j \in DOMAIN post : (IsEdgeLine(post[j]) /\ \E c \in N \ {s} : RefIdSet(post[j]) = {c}) =>
+          LET l == post[j]
+              crossed == [l EXCEPT !.refs = [t \in DOMAIN l.refs |-> IF t = 2 THEN [id |-> s, o |-> l.refs[t].o] ELSE l.refs[t]]] IN
+          "C15.edges" \in MultiplyFails(pre, Mut(post, j, crossed), args)
     \* a line of the rest is altered / lost
     /\ \A j \in rest : "C15.rest" \in MultiplyFails(pre, Without(post, {j}), args)
     \* a copy has another sequence / a requested name is not used
